@@ -1,5 +1,5 @@
 // Package verifkit is the small statistics / evidence recorder shared by every
-// harness test under /verif/harness. It has no dependencies. Each test process
+// harness test under /verif/harness. It has no dependencies outside the standard library. Each test process
 // writes one JSON file into $VERIF_STATS_DIR; the driver (/verif/check) merges
 // them into /verif/evidence/<ID>.json.
 package verifkit
@@ -8,6 +8,7 @@ import (
 	"encoding/json"
 	"fmt"
 	"hash/fnv"
+	"net"
 	"os"
 	"path/filepath"
 	"sort"
@@ -217,4 +218,38 @@ func Watch(d time.Duration, f func()) bool {
 	case <-time.After(d):
 		return false
 	}
+}
+
+var (
+	addrMu     sync.Mutex
+	addrHanded = map[string]bool{}
+)
+
+// FreeAddr returns a loopback TCP address that was free a moment ago and that this process has not been
+// handed before. Probing "127.0.0.1:0" twice in a row returns the SAME port about once in 5500 pairs (the
+// kernel draws from ~7000 candidates and the first probe has been released), and a bed that configures two
+// listeners from such a pair cannot start; remembering what was handed out removes that case. Another process
+// can still take the port before the caller binds it: callers treat "address already in use" as a bed failure
+// to be retried with fresh addresses, never as a verdict.
+func FreeAddr() string {
+	addrMu.Lock()
+	defer addrMu.Unlock()
+	if len(addrHanded) > 2048 {
+		// ports handed out long ago have been bound and released by now
+		addrHanded = map[string]bool{}
+	}
+	var last string
+	for try := 0; try < 64; try++ {
+		l, err := net.Listen("tcp", "127.0.0.1:0")
+		if err != nil {
+			panic(err)
+		}
+		last = l.Addr().String()
+		l.Close()
+		if !addrHanded[last] {
+			addrHanded[last] = true
+			return last
+		}
+	}
+	return last
 }
